@@ -72,6 +72,14 @@ func rotateTables(db clickhouse.Conn, clusterName string, distributed bool, days
 	if err != nil || val == rotateTTLStr {
 		return err
 	}
+	if val != "" {
+		// forget the recorded value before touching the tables: if this run is interrupted between the ALTERs
+		// the next run must redo the whole group whatever the configuration is by then
+		err = putSetting(db, "rotate", settingName, "")
+		if err != nil {
+			return err
+		}
+	}
 	for _, table := range tables {
 		q := fmt.Sprintf(`ALTER TABLE %s %s
 MODIFY SETTING ttl_only_drop_parts = 1, merge_with_ttl_timeout = 3600, index_granularity = 8192`, table, onCluster)
@@ -101,6 +109,13 @@ func storagePolicyUpdate(db clickhouse.Conn, clusterName string,
 	val, err := getSetting(db, distributed, "rotate", setting)
 	if err != nil || storagePolicy == "" || val == storagePolicy {
 		return err
+	}
+	if val != "" {
+		// see rotateTables: an interrupted change must not leave a marker that vouches for all tables
+		err = putSetting(db, "rotate", setting, "")
+		if err != nil {
+			return err
+		}
 	}
 	for _, tbl := range tables {
 		err = db.Exec(context.Background(), fmt.Sprintf(`ALTER TABLE %s %s MODIFY SETTING storage_policy=$1`,
